@@ -45,6 +45,8 @@ char *nondet_ptr(void);
 #define LL2C_LOAD(T, p) (*(T *)(p))
 #define LL2C_STORE(T, p, v) (*(T *)(p) = (v))
 #define LL2C_ALIGNED(n) __attribute__((aligned(n)))
+#define LL2C_INTPTR(c) ((char *)0 + (c))
+#define LL2C_PTRTOINT(p) (__CPROVER_POINTER_OBJECT(p) == 0 ? (u64)__CPROVER_POINTER_OFFSET(p) : ((u64)4096 * (u64)__CPROVER_POINTER_OBJECT(p) + (u64)__CPROVER_POINTER_OFFSET(p)))
 #else
 #include <string.h>
 #include <stdlib.h>
@@ -90,6 +92,8 @@ LL2C_DEFLOAD(float)
 LL2C_DEFLOAD(double)
 typedef char *ll2c_ptr;
 LL2C_DEFLOAD(ll2c_ptr)
+#define LL2C_PTRTOINT(p) ((u64)(uintptr_t)(p))
+#define LL2C_INTPTR(c) ((char *)(uintptr_t)(c))
 #define LL2C_LOAD(T, p) ll2c_load_##T(p)
 #define LL2C_STORE(T, p, v) ll2c_store_##T(p, v)
 #define LL2C_ALIGNED(n) __attribute__((aligned(n)))
